@@ -28,7 +28,7 @@ def jobs(tier):
             elif n == 2:
                 sm, vm, st = (4, 5, 2) if q else (6, 7, 3)
             else:
-                sm, vm, st = (3, 3, 2) if q else (4, 5, 2)
+                sm, vm, st = (3, 3, 1) if q else (4, 5, 2)
             params = [("size", "int"), ("idx", "int")]
             pre = [f"1 <= size <= {sm}", f"0 <= idx <= {vm}"]
             for k in range(n):
